@@ -83,7 +83,19 @@ func main() {
 		rep.add("yae", "load", 0, Violated, false, err.Error())
 	} else {
 		ctx := &Ctx{Prog: prog, R: rep, Thorough: *tier == "thorough"}
-		for _, id := range spec.rules {
+		ruleList := append([]string{}, spec.rules...)
+		if ctx.Thorough {
+			have := map[string]bool{}
+			for _, r := range ruleList {
+				have[r] = true
+			}
+			for _, r := range thoroughExtra[*prop] {
+				if !have[r] {
+					ruleList = append(ruleList, r)
+				}
+			}
+		}
+		for _, id := range ruleList {
 			f := ruleTable[id]
 			if f == nil {
 				rep.cur = "LOAD"
